@@ -306,6 +306,11 @@ class disassembler(object):
                         # logger.debug(u'exception raised by disassembler:'
                         #             u'decoding %s with spec %s'%(codecs.encode(bytestring,'hex'),s.format))
                         continue
+                    except BaseException:
+                        # the spec's hook failed: forget any stacked prefix so that
+                        # it can't leak into the next call.
+                        self.__i = None
+                        raise
                     # we found the instruction (or prefix)
                     if i.spec.pfx is True:
                         if self.__i is None:
